@@ -680,6 +680,25 @@ class Check:
             p = self._write_replay(obj)
             lines.append("VIOLATION property=%s replay=%s no-failing-input-found" % (self.pid, p))
             nviol += 1
+        # thorough tier: independent re-check of every proved Props file with
+        # coqchk (unless the property's module already did it)
+        if self.tier == "thorough" and "coqchk" not in self.coverage and self.proofs \
+                and not any(r["failure"] for r in self.proofs):
+            res = {}
+            for r in self.proofs:
+                name = os.path.basename(r["file"])[:-2]
+                try:
+                    ok, axioms, tail = coqchk(name)
+                except Exception as e:  # noqa
+                    ok, axioms, tail = False, [], str(e)
+                res[name] = {"ok": ok, "axioms": axioms}
+                if not ok:
+                    self.add_unshown("coqchk", name, tail[-800:])
+            self.coverage["coqchk"] = res
+            if any(not v["ok"] for v in res.values()) and nviol == 0:
+                pth = self._write_replay({"kind": "no-failing-input-found", "no_longer_checks": self.unshown[:10]})
+                lines.append("VIOLATION property=%s replay=%s no-failing-input-found" % (self.pid, pth))
+                nviol += 1
         # evidence
         obligations = sum(len(r["theorems"]) for r in self.proofs)
         discharged = sum(len(r["discharged"]) for r in self.proofs)
